@@ -187,10 +187,6 @@ MUTANTS = {
                         "        elif suffix in (\"xls\", \"xlsx\"):",
                         "        elif suffix in (\"xls\",):",
                         "a CID stored as .xlsx is read as delimited text"),
-    "c17_excel_text_dot_zero": (["C17", "C16"], "cutplace/rowio.py",
-                                "        if (cell.ctype == xlrd.XL_CELL_NUMBER) and (result.endswith(\".0\")):",
-                                "        if result.endswith(\".0\"):",
-                                "'.0' stripped from every Excel cell rendered through str()"),
     "c18_flag_per_file": (["C18"], "cutplace/applications.py",
                           "        _log.info('validate \"%s\"', data_path)\n",
                           "        _log.info('validate \"%s\"', data_path)\n        self.all_validations_were_ok = True\n",
